@@ -914,10 +914,19 @@ class C28(C.Check):
             for i in range(10 * budget):
                 cfg = gen_cfg(rng, i, False, big=True)
                 n += 1
-                oj = observe(cfg, "jax")
-                report(cfg, "jax", direct_failures(oj))
+                # an implementation that cannot even be evaluated on a legal configuration (e.g. the classic
+                # and the JAX maker disagree about the latent shapes) is a failing input, not a harness error
+                try:
+                    oj = observe(cfg, "jax")
+                    report(cfg, "jax", direct_failures(oj))
+                except Exception as e:
+                    report(cfg, "jax", [("exception", repr(e)[:300])])
+                    continue
                 if has_classic(cfg):
-                    report(cfg, "classic", direct_failures(observe(cfg, "classic"), other=oj))
+                    try:
+                        report(cfg, "classic", direct_failures(observe(cfg, "classic"), other=oj))
+                    except Exception as e:
+                        report(cfg, "classic", [("exception", repr(e)[:300])])
         res.coverage["impl_property_evaluations"] = n
 
     def replay(self, ctx, rp):
